@@ -533,6 +533,13 @@ def judge_ctcp(ctx, idx, op, impl, mi, ms, reason):
             f.append(Finding("property", idx, "over TCP: a response future is still pending 8 s after the peer %s" % ("closed the connection" if lab.get("cut", "-") != "-" else "answered"), expected="answer or error", observed=impl, name="C12_stopped"))
     if lab.get("cut", "-") == "-" and (len(res) != n or any(not rv.startswith("got:") for rv in res)):
         f.append(Finding("property", idx, "over TCP: a request the peer answered did not get its answer", expected=mi, observed=impl, name="C11_delivery"))
+    elif mi.startswith("res="):
+        # with a cut: the answers the peer had sent completely before it belong to their futures all the same
+        pred = mi[4:].split(",")
+        for i, pv in enumerate(pred):
+            if pv.startswith("got:") and i < len(res) and not res[i].startswith("got:") and res[i] != "pending":
+                f.append(Finding("property", idx, "over TCP: the peer sent the complete answer to request %d before the connection ended, its future completed with `%s`" % (i, res[i]), expected=pv, observed=res[i], name="C12_multi_delivery_enabled"))
+                break
     return f
 
 
